@@ -5730,7 +5730,7 @@ def handle_posix_spawn(parser, events):
         path = vnodes[3].path
     else:
         stdin, stdout, stderr = None, None, None
-        path = vnodes[0].path
+        path = vnodes[0].path if vnodes else ''
     args = events[0].values
     return BscPosixSpawn(events, args[0], path, args[2], args[3], stdin, stdout, stderr,
                          serialize_result(events[-1]))
@@ -6265,8 +6265,10 @@ def handle_openat(parser, events, no_cancel=False):
 
 def handle_renameat(parser, events):
     nodes = parser.parse_vnodes(events)
+    path1 = nodes[0].path if nodes else ''
+    path2 = nodes[1].path if len(nodes) > 1 else ''
     args = events[0].values
-    return BscRenameat(events, args[0], nodes[0].path, args[2], nodes[1].path, serialize_result(events[-1]))
+    return BscRenameat(events, args[0], path1, args[2], path2, serialize_result(events[-1]))
 
 
 def handle_faccessat(parser, events):
@@ -6303,7 +6305,8 @@ def handle_fstatat64(parser, events):
 
 def handle_linkat(parser, events):
     nodes = parser.parse_vnodes(events)
-    path1, path2 = (nodes[0].path, nodes[1].path) if nodes else ('', '')
+    path1 = nodes[0].path if nodes else ''
+    path2 = nodes[1].path if len(nodes) > 1 else ''
     args = events[0].values
     return BscLinkat(events, args[0], path1, args[2], path2, serialize_result(events[-1]))
 
@@ -6324,7 +6327,8 @@ def handle_symlinkat(parser, events):
     nodes = parser.parse_vnodes(events)
     oldpath = nodes[0].path if len(nodes) > 1 else ''
     args = events[0].values
-    return BscSymlinkat(events, oldpath, args[1], nodes[-1].path, serialize_result(events[-1]))
+    newpath = nodes[-1].path if nodes else ''
+    return BscSymlinkat(events, oldpath, args[1], newpath, serialize_result(events[-1]))
 
 
 def handle_mkdirat(parser, events):
@@ -6398,7 +6402,8 @@ def handle_guarded_writev_np(parser, events):
 
 def handle_renameatx_np(parser, events):
     nodes = parser.parse_vnodes(events)
-    path1, path2 = (nodes[0].path, nodes[1].path) if nodes else ('', '')
+    path1 = nodes[0].path if nodes else ''
+    path2 = nodes[1].path if len(nodes) > 1 else ''
     args = events[0].values
     return BscRenameatxNp(events, args[0], path1, args[2], path2, serialize_result(events[-1]))
 
@@ -6535,8 +6540,9 @@ def handle_fclonefileat(parser, events):
 def handle_fs_snapshot(parser, events):
     nodes = parser.parse_vnodes(events)
     name2 = nodes[1].path if len(nodes) > 1 else ''
+    name1 = nodes[0].path if nodes else ''
     args = events[0].values
-    return BscFsSnapshot(events, FsSnapshotOp(args[0]), args[1], nodes[0].path, name2, serialize_result(events[-1]))
+    return BscFsSnapshot(events, FsSnapshotOp(args[0]), args[1], name1, name2, serialize_result(events[-1]))
 
 
 def handle_terminate_with_payload(parser, events):
@@ -6621,7 +6627,8 @@ def handle_shared_region_map_and_slide_2_np(parser, events):
 
 def handle_pivot_root(parser, events):
     nodes = parser.parse_vnodes(events)
-    path1, path2 = (nodes[0].path, nodes[1].path) if nodes else ('', '')
+    path1 = nodes[0].path if nodes else ''
+    path2 = nodes[1].path if len(nodes) > 1 else ''
     return BscPivotRoot(events, path1, path2, serialize_result(events[-1]))
 
 
